@@ -104,6 +104,7 @@ type Interp struct {
 	FinallyRuns                  int
 	MacroExpansions              int
 	gensym                       int
+	UnboundSeen                  map[string]bool // every symbol whose lookup failed during the run (also inside try)
 }
 
 func New(budget int) *Interp {
@@ -146,6 +147,10 @@ func (it *Interp) Eval(ast *canon.Node, env *Env) (*canon.Node, *Err) {
 	case canon.Sym:
 		v, ok := env.Get(ast.S)
 		if !ok {
+			if it.UnboundSeen == nil {
+				it.UnboundSeen = map[string]bool{}
+			}
+			it.UnboundSeen[ast.S] = true
 			return nil, &Err{Class: Unbound, Sym: ast.S}
 		}
 		return v, nil
